@@ -53,6 +53,7 @@ func main() {
 		work := fs.String("work", "", "")
 		raceBin := fs.String("race-bin", "", "")
 		replay := fs.String("replay", "", "")
+		coverFunc := fs.String("cover-func", "", "")
 		fs.Parse(os.Args[2:])
 		t := fw.Quick
 		if *tier == "thorough" || os.Getenv("VERIF_TIER") == "thorough" && *tier == "" {
@@ -66,7 +67,7 @@ func main() {
 		}
 		self, _ := os.Executable()
 		os.Exit(fw.Drive(fw.DriverOpts{Prop: *prop, Tier: t, Seed: seed, PlainBin: self, RaceBin: *raceBin, VerifDir: *verif, WorkDir: *work,
-			Hooks: fw.HooksEnabled, Replay: *replay}))
+			Hooks: fw.HooksEnabled, Replay: *replay, CoverFunc: *coverFunc}))
 	default:
 		fmt.Println("unknown subcommand")
 		os.Exit(2)
